@@ -436,7 +436,21 @@ def _same(xs, ys):
     return len(xs) == len(ys) and all(dec(a) == dec(b) for a, b in zip(xs, ys))
 
 
+def _pure_d13(probs):
+    return (len(probs) == 2 and probs[0][0] == "model" and probs[0][1].startswith("RuntimeError (PEP 479)")
+            and probs[1][0] == "spec" and probs[1][1].startswith("RuntimeError instead of the end"))
+
+
 def compare(c, io, drv):
+    probs = _compare(c, io, drv)
+    if c.get("_noD13") and _pure_d13(probs):
+        # a shrinking candidate of a failure that is NOT the known defect D13: do not let the
+        # minimisation drift into D13 (which would then be reported as the known finding)
+        return []
+    return probs
+
+
+def _compare(c, io, drv):
     out = []
     model, spec = drv["model"], drv["spec"]
     n = len(c["xs"])
@@ -593,15 +607,16 @@ def classify(c, io, drv):
         return "%s:raises-%s-at-%s:expected-%s" % (e, io["err"], io.get("stage"), spec.get("err", "output"))
     if "err" in spec:
         return "%s:runs:expected-%s" % (e, spec["err"])
-    probs = compare(c, io, drv)
+    probs = _compare(c, io, drv)
     spec_probs = [d for k, d in probs if k == "spec"]
     model_probs = [d for k, d in probs if k == "model"]
     if "err" in io:
         if (_d13(c, io, spec) and _same(io.get("out", []), spec["out"]) and len(spec_probs) == 1
                 and len(model_probs) == 1 and model_probs[0].startswith("RuntimeError (PEP 479)")):
             return "call:coefficient-stream-ends-before-input:RuntimeError-instead-of-end-of-output"
-        return "%s:raises-%s-while-iterating-after-%d-outputs:expected-%d" % (
-            e, io["err"], len(io.get("out", [])), len(spec.get("out", [])))
+        return "%s:raises-%s-while-iterating:%s" % (
+            e, io["err"], "outputs-so-far-right" if _same(io.get("out", []), spec.get("out", [])[:len(io.get("out", []))])
+            else "outputs-so-far-wrong")
     parts = []
     if any("generated source differs" in d for d in model_probs):
         ir, mir = io.get("ir", {}), model.get("ir", {})
@@ -864,7 +879,18 @@ def _renumber(c):
     return dict(c, num=f(c["num"]), den=f(c["den"]), srcs=[c["srcs"][i] for i in used])
 
 
+def _early(c):
+    n = len(c["xs"])
+    return any(d["kind"] == "finite" and len(d["vals"]) < n for d in c.get("srcs", []))
+
+
 def shrink(c):
+    mark = bool(c.get("_noD13")) or not _early(c)
+    for cand in _shrink(c):
+        yield dict(cand, _noD13=True) if mark else cand
+
+
+def _shrink(c):
     xs = c["xs"]
     if xs:
         yield dict(c, xs=xs[:-1])
